@@ -392,9 +392,14 @@ fn attempt(
             _ => Err(("Failed to construct a useful datetime".to_string(), count)),
         }
     } else {
-        let offset = parsed
-            .to_fixed_offset()
-            .unwrap_or_else(|_| FixedOffset::east_opt(0).unwrap());
+        // No offset means UTC; an offset that was written but is not
+        // within +-24 hours is an error rather than UTC.
+        let offset = match parsed.offset {
+            None => FixedOffset::east_opt(0).unwrap(),
+            Some(_) => parsed
+                .to_fixed_offset()
+                .map_err(|_| ("Offset must be within +-24 hours".to_string(), count))?,
+        };
         match (time, date) {
             (Ok(time), Ok(date)) => offset
                 .from_local_datetime(&date.and_time(time))
